@@ -31,7 +31,10 @@ TITLE = 'Tree views obey get/set laws and never mutate the viewed data'
 LEAN_MODULES = ['MlModel.Properties.C18']
 TRUSTED = [
     'modelled, not verified: CPython dict/list/tuple semantics (insertion order, negative indices, copy.copy), '
-    'structural pattern matching in set/__getitem__/_default_tree, Mapping mixin items()/keys() — written out in Model/Tree.lean',
+    'structural pattern matching in set/__getitem__/_default_tree, Mapping mixin items()/keys() — written out in Model/Tree.lean; '
+    'a dict holds key OBJECTS: Index(i) == i with equal hash address one entry, the entry keeps the key object it was first given and '
+    'items()/keys() list it (DKey.idx vs DKey.int, lookups through DKey.norm); both sides report which of the two every dict key and every '
+    'element of a listed path is — no Index->int canonicalisation anywhere in the tie',
     'ndarrays are heap objects of the Lean model (an `nd` cell = one array object = a C-contiguous window of a `buf` cell that '
     'several array objects may share): reads and sets (copying and in place) whose path indexes INTO an ndarray are in the model and '
     'in the correspondence, which compares object identity, BUFFER identity (owner of the memory: end of the .base chain), window '
@@ -42,7 +45,7 @@ TRUSTED = [
 ]
 ASSUMPTIONS = [
     'leaves are int/str/None; ndarrays are int64, 1-D or 2-D, C-contiguous (owning arrays and views of them); dict keys are '
-    'str/int/Literal objects; the view is built without key_paths',
+    'str/int/Index/Literal objects (an Index and the equal int never in one dict); the view is built without key_paths',
     'no cyclic input data (in-place sets never store an ancestor); ndarray elements are assigned ints only where the get/set law is claimed',
 ]
 RULE = ('heaps of <= ~25 cells (trees of depth <= 4 of dict/list/tuple with int/str/None/ndarray leaves, ~15% aliased '
@@ -1001,7 +1004,8 @@ def extra(ctx):
                       'inplace into an array: ok', 'get into an array: ok', 'get into an array: IndexError',
                       'read returned a new view of an input buffer', 'copying set returned a new array on a new buffer',
                       'in-place set kept the array object', 'in-place write seen through >= 2 array objects (aliases)',
-                      'multi-key set into an array: ok']}
+                      'multi-key set into an array: ok'],
+          'keyobj': ['set: a dict of the result holds an Index key object', 'items listed an Index held as a dict key']}
   missing = [f'{k}/{x}' for k, xs in need.items() for x in xs if not _STATS.get(k, {}).get(x)]
   if missing:
     ctx.notes.append('coverage holes: ' + ', '.join(missing))
@@ -1079,9 +1083,50 @@ def _nd_stats(case, op, o, kind):
     _stat('ndarray', 'in-place write seen through >= 2 array objects (aliases)')
 
 
+def _walk_dkeys(d, acc):
+  if isinstance(d, dict):
+    for k, v in d.get('es', []):
+      acc.append(k)
+      _walk_dkeys(v, acc)
+    for v in d.get('rs', []):
+      _walk_dkeys(v, acc)
+
+
+def _keyobj_stats(case, op, o, kind):
+  """Which dict-key OBJECT situations the correspondence covered (Index held as a dict key)."""
+  for f in ('res', 'one'):
+    if f in o:
+      ks = []
+      _walk_dkeys(o[f], ks)
+      if any(isinstance(k, dict) and 'x' in k for k in ks):
+        _stat('keyobj', f'{kind}: a dict of the result holds an Index key object')
+  if kind == 'items' and o.get('err') is None:
+    for p, _ in o.get('items', []):
+      # an Index element followed by ... is a dict key iff the listed object sits in a dict; cheap proxy: the
+      # same path read on the input heap meets a dict cell there (input roots only)
+      cur, heap = op.get('root'), case['heap']
+      if not isinstance(cur, int):
+        break
+      for k in p:
+        c = heap[cur]
+        if c['t'] == 'dict' and isinstance(k, dict):
+          if 'x' in k:
+            _stat('keyobj', 'items listed an Index held as a dict key')
+          nxt = [v for dk, v in c['es'] if dk == k]
+        elif c['t'] in ('list', 'tuple') and isinstance(k, dict) and 'x' in k and 0 <= k['x'] < len(c['rs']):
+          nxt = [c['rs'][k['x']]]
+        else:
+          nxt = []
+        if not nxt:
+          break
+        cur = nxt[0]
+
+
 def nontrivial(case, obs):
   for op, o in zip(case['ops'], obs['ops']):
     kind = 'inplace' if op.get('in_place') else op['op']
+    if not o.get('skipped'):
+      _keyobj_stats(case, op, o, kind)
     if not o.get('skipped'):
       _nd_stats(case, op, o, kind)
     if o.get('skipped'):
